@@ -19,7 +19,7 @@ META = {
                    "in-place write reaches a leaf core (effect analysis), norm switches to the differentiable Gram chain whenever any "
                    "core is tracked, and grad.grad / grad.grad_list return c.grad of exactly the watched cores in order.",
     "assumptions": ["autograd's chain rule for the torch primitives used", "numerical agreement with finite differences is not decided"],
-    "floors": {"GRAPH-CUT": 25, "LEAF-WRITE": 25, "NORM-SWITCH": 1, "GRAD-COLLECT": 3},
+    "floors": {"GRAPH-CUT": 25, "LEAF-WRITE": 25, "GRAD-COLLECT": 3, "E5-CHAIN": 40},
 }
 DIFF = ["_tt_base.TT.full", "_tt_base.TT.__add__", "_tt_base.TT.__radd__", "_tt_base.TT.__sub__", "_tt_base.TT.__rsub__", "_tt_base.TT.__mul__",
         "_tt_base.TT.__rmul__", "_tt_base.TT.__matmul__", "_tt_base.TT.__neg__", "_tt_base.TT.__pos__", "_tt_base.TT.__truediv__",
@@ -214,7 +214,10 @@ def check(model: Model, tier: str):
     obs = []
     obs += rule_graph_cut(model)
     obs += rule_leaf_write(model)
-    obs += rule_norm_switch(model)
-    obs += rule_grad_collect(model)
-    obs += e5ob.for_property(model, "C15", tier)
+    sem = e5ob.for_property(model, "C15", tier)
+    from .common import cross_reference
+    obs += cross_reference(rule_norm_switch(model), [o for o in sem if "norm:switch" in o.key or "norm:ad" in o.key], "E5 scenarios norm:switch / norm:ad")
+    obs += cross_reference(rule_grad_collect(model), [o for o in sem if any(t in o.key for t in (":grad:d", ":grad_list:", ":watch:d", ":unwatch:"))],
+                           "E5 closed-value scenarios grad / grad_list / watch / unwatch")
+    obs += sem
     return obs, {"functions": ANCHORS}
